@@ -9,9 +9,19 @@
    The theorems hold for every fuel; when the fuel is too small the model returns OutOfFuel and
    there is no trace to speak about (Events/EventsExamples.v shows a run that returns a trace in
    which all three kinds fire, one descriptor carries both directions and a callback cancels the
-   descriptor under the scan cursor). *)
+   descriptor under the scan cursor).
+
+   run_case has four outcomes: Ok tr; OutOfFuel (the fuel of the dispatcher loops ran out); Fault
+   (the model indexed outside one of its arrays - S[], fds[], heads[], the heap - or followed a
+   missing pointer: pollpos = -1 used as an index, a timer handle that is not in the heap,
+   TAILQ_FIRST of an empty queue); AssertFail (an assert of the C failed).  The theorems up to
+   C04_timer_not_early speak about Ok only; the last five theorems of this file are about the
+   other outcomes (proofs in Events/EventsProgress.v: a structural invariant - 32 queue heads,
+   minq <= 32, N1-N5 of events_network.c and nfds <= fds_alloc, every timer handle the client
+   believes live is in the heap - holds initially, is preserved by every operation and excludes
+   every Fault and two of growpollfd's three asserts). *)
 From Coq Require Import NArith ZArith List.
-From LCP Require Import Base.CheckedMem Events.EventsTrace Events.EventsSpec Events.EventsModel Events.EventsSpecProofs Events.EventsInv Events.EventsExamples.
+From LCP Require Import Base.CheckedMem Events.EventsTrace Events.EventsSpec Events.EventsModel Events.EventsSpecProofs Events.EventsInv Events.EventsExamples Events.EventsProgress.
 Import ListNotations.
 
 (* the inductive invariant EvInv (Appendix B) in its consequence form: the specification's
@@ -60,3 +70,54 @@ Theorem C04_timer_not_early :
   forall p xs pl cl fuel tr, runs_to p xs pl cl fuel tr -> timer_not_early tr.
 Proof. exact runs_to_timer. Qed.
 Print Assumptions C04_timer_not_early.
+
+(* ---------------------------------------------------------------- runs that return no trace *)
+
+(* No run of the model faults: for EVERY program, external call sequence, poll schedule, clock
+   script and fuel - no normalisation hypothesis at all (timevals play no role in memory safety) -
+   run_case never answers Fault.  So the antecedent `run_case ... = Ok tr` of the theorems above
+   fails only through OutOfFuel or through one of the asserts characterised next. *)
+Theorem C04_model_never_faults :
+  forall p xs pl cl fuel, run_case p xs pl cl fuel <> Fault.
+Proof. exact model_never_faults. Qed.
+Print Assumptions C04_model_never_faults.
+
+(* AssertFail is answered only for arguments outside the documented contract of the API.
+   op_safe o (prog_safe p: every operation of every script of p; xop_safe: the external calls):
+       events_immediate_register   prio < 32         (PRIO_LIMIT, regenerated from the C's assert)
+       events_network_register     fd < INT_MAX      (growpollfd: assert(fd < INT_MAX); a negative
+                                                      fd is not an assert, it is reported as -1)
+   Under it every run returns a trace or runs out of fuel.  In particular growpollfd's other two
+   asserts (pollpos == -1 and nfds < fds_alloc) never fail. *)
+Theorem C04_model_asserts_only_outside_contract :
+  forall p xs pl cl fuel, prog_safe p -> Forall xop_safe xs ->
+    (exists tr, run_case p xs pl cl fuel = Ok tr) \/ run_case p xs pl cl fuel = OutOfFuel.
+Proof. exact model_no_assert. Qed.
+Print Assumptions C04_model_asserts_only_outside_contract.
+
+(* ... hence with the hypotheses of the theorems above (runs_to = prog_norm p, Forall xop_norm xs,
+   normalised clock readings, run_case = Ok tr) and the contract: the run satisfies runs_to, or
+   the fuel was too small.  Non-vacuity: EventsExamples.ex_hyps + EventsProgress.ex_safe. *)
+Theorem C04_model_run_or_out_of_fuel :
+  forall p xs pl cl fuel,
+    prog_norm p -> Forall xop_norm xs -> Forall (fun t => tv_norm t = true) cl ->
+    prog_safe p -> Forall xop_safe xs ->
+    (exists tr, runs_to p xs pl cl fuel tr) \/ run_case p xs pl cl fuel = OutOfFuel.
+Proof. exact runs_to_or_out_of_fuel. Qed.
+Print Assumptions C04_model_run_or_out_of_fuel.
+
+(* the two asserts are real and sit exactly at these limits: priority 32 asserts (also when the
+   call's allocation would have been refused: the assert comes first in the C), priority 31 does
+   not; growpollfd asserts for every descriptor >= INT_MAX that reaches it *)
+Theorem C04_assert_at_priority_limit :
+  run_case [] [XOp (OImmReg 0 32 0 0)] [] [] 5 = AssertFail /\
+  run_case [] [XOp (OImmReg 0 32 0 1)] [] [] 5 = AssertFail /\
+  exists tr, run_case [] [XOp (OImmReg 0 31 0 0)] [] [] 5 = Ok tr.
+Proof. exact ex_assert_prio. Qed.
+Print Assumptions C04_assert_at_priority_limit.
+
+Theorem C04_assert_at_descriptor_limit :
+  forall fd n k, nth_error (socks n) fd = Some k -> pollpos k = None -> alloc_ok n ->
+    (C_INT_MAX <= Z.of_nat fd)%Z -> growpollfd fd n = AssertFail.
+Proof. exact growpollfd_int_max. Qed.
+Print Assumptions C04_assert_at_descriptor_limit.
